@@ -1789,21 +1789,32 @@ coap_io_process_with_fds_lkd(coap_context_t *ctx, uint32_t timeout_ms,
       break;
     }
 
-#if COAP_THREAD_SAFE
-    /* Need to refresh what is available to read / write etc. */
-    nfds = epoll_wait(ctx->epfd, events, COAP_MAX_EPOLL_EVENTS, 0);
-    if (nfds < 0) {
-      if (errno != EINTR) {
-        coap_log_err("epoll_wait: unexpected error: %s (%d)\n",
-                     coap_socket_strerror(), nfds);
-      }
-      coap_lock_lock(ctx, return -1);
-      break;
-    }
-#endif /* COAP_THREAD_SAFE */
     coap_lock_lock(ctx, return -1);
 
+#if COAP_THREAD_SAFE
+    {
+      /*
+       * Another thread may have freed any session (and with it the socket that
+       * events[].data.ptr points into) while the lock was released above, and
+       * may do so again whenever a handler is called with the lock released.
+       * So only the first event of an epoll_wait() done with the lock held can
+       * be trusted: fetch and handle what is ready one event at a time.
+       */
+      int todo = nfds;
+      int done = 0;
+
+      while (todo-- > 0) {
+        if (epoll_wait(ctx->epfd, events, 1, 0) != 1)
+          break;
+        coap_io_do_epoll_lkd(ctx, events, 1);
+        done = 1;
+      }
+      if (!done)
+        coap_io_do_epoll_lkd(ctx, events, 0);
+    }
+#else /* ! COAP_THREAD_SAFE */
     coap_io_do_epoll_lkd(ctx, events, nfds);
+#endif /* ! COAP_THREAD_SAFE */
 
     /*
      * reset to COAP_IO_NO_WAIT (which causes etimeout to become 0)
